@@ -378,7 +378,6 @@ func gatedTransformPhase(t *testing.T) func(rep *Report, dir string) {
 			}
 		}
 
-		rep.CoqFiles = append(rep.CoqFiles, f.finish(t, dir))
-		rep.CaseFiles = append(rep.CaseFiles, writeJSONL(t, dir, "C07_transform_cases.jsonl", jl))
+		f.finishSharded(t, dir, rep, jl, 400)
 	}
 }
